@@ -139,6 +139,8 @@ def items(events, case="lower", trailing_dangling=False):
             cls = class_name_at(events, i)
             mname = nm if k == "cpp_member" else ev.get("ctor", "CTOR")
             cmd(k, [mname, cls] + list(ev.get("types", [])))
+            for bname, bargs in ev.get("between", []):
+                cmd(bname, list(bargs))
             if ev.get("impldoc"):
                 out.append(("doc", [f"Doc on the implementing definition of {i}."], None))
             cmd(ev.get("impl", "function"), ['"${%s}"' % mname, "self"] + list(ev.get("params", [])))
@@ -148,6 +150,8 @@ def items(events, case="lower", trailing_dangling=False):
             if "args" in ev:
                 args = list(ev["args"])
             cmd(k, args)
+            for bname, bargs in ev.get("between", []):
+                cmd(bname, list(bargs))
             if ev.get("impldoc"):
                 out.append(("doc", [f"Doc on the implementing definition of {i}."], None))
             cmd(ev.get("impl", "function"), ["${%s}" % nm.strip('"${}')] + list(ev.get("params", [])))
